@@ -22,3 +22,11 @@ chk("C13", "static analysis: slice-provenance (cut kind) vs offset-update typest
     "cannot enumerate.",
     "Trusted: rustc MIR; loops are abstracted (loop-modified locals become fresh symbols, others keep their pre-loop value); "
     "`skip` relies on its count being <= len (loop bound not proved). Char-boundary clause rests on C01/C03.")
+chk("C14", "static analysis: MIR delegation rules and one-step protocol decision tables",
+    "Each combinator's new remainder must be (the payload of) the same-named konst::string function applied to "
+    "(old remainder, argument), Some/None mapped to Ok/Err with the method's ErrorKind (10 rows); the five split methods are "
+    "compared as one-step decision tables over (exhausted flag, remainder empty, split_once/find Some/None) with the protocol "
+    "in the property text, including what is yielded, the new remainder and the new flag; only those five may write the flag; "
+    "the 13 StdParser::parse_with impls must return the matching parse_* call. Covers all strings/patterns symbolically.",
+    "Trusted: rustc MIR. The results of the string functions themselves are C04/C05/C12; histories follow by induction over "
+    "the one-step tables (written argument, DESIGN.md App. D).")
